@@ -42,5 +42,5 @@ fn assumptions(ctx: &Ctx) -> Vec<String> {
 }
 
 fn main() {
-    main_entry(Engine { name: "tlv_mc", level, rule, run, replay, assumptions });
+    main_entry(Engine { name: "tlv_mc", level, rule, run, replay, assumptions, decode_breadcrumb: None });
 }
